@@ -126,7 +126,7 @@ func (h *Hier) scriptA() Script {
 				continue
 			}
 			ar := h.Arity[c][j]
-			w.p("  public function m%d(%s) { return \"%s::m%d\"", j, params(ar), cn, j)
+			w.p("  %s function m%d(%s) { return \"%s::m%d\"", visName[h.Vis[c][j]], j, params(ar), cn, j)
 			if h.CM[c][j] == 2 {
 				w.p(" . \">\" . parent::m%d(%s)", j, params(ar))
 			}
@@ -148,10 +148,16 @@ func (h *Hier) scriptA() Script {
 				w.p("  public function this_%s_m%d() { return $this->m%d(%s); }\n", cn, j, j, a)
 				w.p("  public function self_%s_m%d() { return self::m%d(%s); }\n", cn, j, j, a)
 				w.p("  public function stat_%s_m%d() { return static::m%d(%s); }\n", cn, j, j, a)
+				// runOn: code of this class calls the method on another object
+				w.p("  public function runon_%s_m%d($o) { return $o->m%d(%s); }\n", cn, j, j, a)
 			}
 			if p := h.Parent[c]; p >= 0 {
 				if d := h.provides(p, j); d >= 0 {
-					w.p("  public function par_%s_m%d() { return parent::m%d(%s); }\n", cn, j, j, args(h.Arity[d][j]))
+					if h.Vis[d][j] != 2 {
+						w.p("  public function par_%s_m%d() { return parent::m%d(%s); }\n", cn, j, j, args(h.Arity[d][j]))
+					}
+					// template method of the parent reached through parent::
+					w.p("  public function vp_%s_m%d() { return parent::this_%s_m%d(); }\n", cn, j, h.cname(p), j)
 				}
 			}
 		}
@@ -280,8 +286,20 @@ func (h *Hier) scriptA() Script {
 			}
 			return Row{ID: fmt.Sprintf("%s.%d.%s", form, y, what), Want: want, Stem: stem, Tail: tail, NormY: y, DefX: defx, ErrOpen: open}
 		}
+		// visTag names the visibilities involved when they are not all public
+		visTag := func(s, rcv, j int) string {
+			if h.allPublic(rcv, j) {
+				return ""
+			}
+			f := h.provides(rcv, j)
+			t := ",vis=" + visName[h.Vis[f][j]]
+			if d, ok := h.resolve(s, rcv, j); ok && d != f {
+				t += "+private-in-scope"
+			}
+			return t
+		}
 		for j := 0; j < NM && inst; j++ {
-			if d := h.provides(y, j); d >= 0 {
+			if d, ok := h.resolve(-1, y, j); ok {
 				w.row(mk("dm", -1, fmt.Sprintf("m%d", j), h.marker(d, j)), fmt.Sprintf("%s->m%d(%s)", o, j, args(h.Arity[d][j])))
 			}
 		}
@@ -295,12 +313,44 @@ func (h *Hier) scriptA() Script {
 			for j := 0; j < NM && inst; j++ {
 				m := fmt.Sprintf("m%d", j)
 				if h.provides(x, j) >= 0 {
-					w.row(mk("dh", x, m, h.marker(h.provides(y, j), j)), fmt.Sprintf("%s->this_%s_%s()", o, xn, m))
-					w.row(mk("di", x, m, h.marker(h.provides(x, j), j)), fmt.Sprintf("%s->self_%s_%s()", o, xn, m))
-					w.row(mk("dj", x, m, h.marker(h.provides(y, j), j)), fmt.Sprintf("%s->stat_%s_%s()", o, xn, m))
+					if d, ok := h.resolve(x, y, j); ok {
+						r := mk("dh", x, m, h.marker(d, j))
+						r.Tail += visTag(x, y, j)
+						w.row(r, fmt.Sprintf("%s->this_%s_%s()", o, xn, m))
+					}
+					if h.allPublic(y, j) {
+						w.row(mk("di", x, m, h.marker(h.provides(x, j), j)), fmt.Sprintf("%s->self_%s_%s()", o, xn, m))
+						w.row(mk("dj", x, m, h.marker(h.provides(y, j), j)), fmt.Sprintf("%s->stat_%s_%s()", o, xn, m))
+					}
+					// runOn: an object of y (or of the nearest concrete class at/below x) runs x's code
+					// on every concrete receiver that lies on one chain with x
+					for rcv := 0; rcv < h.NC; rcv++ {
+						if h.Abstract[rcv] || (h.dist(rcv, x) < 0 && h.dist(x, rcv) < 0) {
+							continue
+						}
+						d, ok := h.resolve(x, rcv, j)
+						if !ok {
+							continue
+						}
+						pos := fmt.Sprintf("rcv=^%d", h.dist(rcv, x)) // receiver at/below the calling code's class
+						if h.dist(rcv, x) < 0 {
+							pos = fmt.Sprintf("rcv=above%d", h.dist(x, rcv))
+						}
+						r := Row{ID: fmt.Sprintf("ro.%d.%d.%d.%s", y, x, rcv, m), Want: h.marker(d, j), Stem: "form=ro", Tail: "," + pos + visTag(x, rcv, j), NormY: rcv, DefX: -1}
+						w.row(r, fmt.Sprintf("%s->runon_%s_%s($o%d)", o, xn, m, rcv))
+					}
 				}
 				if p := h.Parent[x]; p >= 0 && h.provides(p, j) >= 0 {
-					w.row(mk("dp", x, m, h.marker(h.provides(p, j), j)), fmt.Sprintf("%s->par_%s_%s()", o, xn, m))
+					if d := h.provides(p, j); h.Vis[d][j] != 2 {
+						r := mk("dp", x, m, h.marker(d, j))
+						r.Tail += visTag(x, p, j)
+						w.row(r, fmt.Sprintf("%s->par_%s_%s()", o, xn, m))
+					}
+					if d, ok := h.resolve(p, y, j); ok {
+						r := mk("vp", x, m, h.marker(d, j))
+						r.Tail += visTag(p, y, j)
+						w.row(r, fmt.Sprintf("%s->vp_%s_%s()", o, xn, m))
+					}
 				}
 			}
 			for j := 0; j < NS; j++ {
